@@ -148,6 +148,7 @@ func (st *SlimTrie) newIter(path []int32, skipFirst, withValue bool) NextRaw {
 	}
 
 	return func() ([]byte, []byte) {
+		verifPoint("iter", int32(stackIdx), 0)
 
 		if stackIdx == -1 {
 			return nil, nil
